@@ -283,3 +283,9 @@ func vfsStore(name string, b []byte, store func(name string, b []byte) error) (e
 	}
 	return store(name, b), false
 }
+func verifBoundOr(name string, def int) int {
+	if v, ok := vr.vec.Bounds[name]; ok {
+		return int(v)
+	}
+	return def
+}
